@@ -1,13 +1,15 @@
 ---- MODULE MC_Selector ----
 (* Exhaustive small configurations of Selector: every history of Refresh/Add/Remove/Select over    *)
-(* the universe is a path of the (finite) state graph, so exploring the graph covers histories of   *)
-(* every depth.                                                                                      *)
+(* the universe is a path of the (finite) state graph, so exploring the whole graph covers the      *)
+(* histories of every depth.                                                                         *)
 EXTENDS Selector
+H2 == {1, 2}
 H3 == {1, 2, 3}
 H4 == {1, 2, 3, 4}
 WOne == {1}
-WPos == {1, 2, 3}
-WPos2 == {1, 25}
+W12 == {1, 2}
+W123 == {1, 2, 3}
+WDeg == {0 - 200, 0, 1}
 WAll == {0 - 200, 0, 1, 2}
 WCh == {0 - 1, 0, 4, 40}
 BoolBoth == {FALSE, TRUE}
@@ -17,10 +19,19 @@ SRR == {"rr"}
 SOthers == {"random", "modhash", "conhash"}
 SCh == {"conhash"}
 SeqsUpTo(S, n) == UNION {[1..k -> S] : k \in 0..n}
-\* refresh lists: every list of endpoints up to length 2, and every list of length 3 over one weight (duplicates included)
+Lists1 == SeqsUpTo(Eps, 1)
 Lists2 == SeqsUpTo(Eps, 2)
 Lists3 == SeqsUpTo(Eps, 3)
-Lists4 == SeqsUpTo(Eps, 4)
-C6 == 0..5
+\* every list up to length 1, plus lists of length 3 that start with a repeated host (dedup keeps the first)
+Lists1x == Lists1 \cup UNION {{<<a, b, c>> : b \in {e \in Eps : e.h = a.h}, c \in {e \in Eps : e.h # a.h /\ e.w = a.w}} : a \in Eps}
+C1 == {0}
 C3 == {0, 1, 7}
+C6 == 0..5
+\* The weighted cycle of every all-positive member list, computed once (TLC evaluates a constant
+\* definition once); CycleOf is overridden by a table lookup so that the state graph search does not
+\* recompute the builder on every transition.
+PosMembers == {m \in SeqsUpTo([h : Hosts, w : {w \in Weights : w > 0}], Cardinality(Hosts)) :
+                 \A i, j \in 1..Len(m) : m[i].h = m[j].h => i = j}
+CycleTable == [m \in PosMembers |-> IF m = <<>> THEN <<>> ELSE StaticWeightList(WeightsOf(m), OrdOf(m))]
+MCCycleOf(s, wt, m) == IF UsesCycle(s, wt, m) THEN CycleTable[m] ELSE <<>>
 ====
